@@ -28,6 +28,7 @@ typedef struct vf_sched_cfg_s {
   const char* hot;         /* comma separated substrings of function names                        */
 } vf_sched_cfg_t;
 
+extern volatile int vf_mode;
 void vf_sched_init(const vf_sched_cfg_t* cfg);
 
 /* create a managed thread (may be called from the unmanaged main thread or from a managed thread) */
